@@ -337,15 +337,32 @@ def memo_key_gaps(scope: Scope, D: str, store: ast.Assign) -> List[str]:
         d = scope.single_def(key.id, allow_mutated=True)
         if isinstance(d, (ast.Tuple, ast.Name)):
             key_names |= astx.names_in(d)
-    val_names = names_closure(scope, store.value, stop=ind | key_names)  # what the key pins down needs no further look
+    val_names = names_closure(scope, store.value, stop=ind | key_names, ignore_ctx=list(par.ancestors(store)))  # what the key pins down needs no further look
     return sorted((val_names & ind) - key_names)
 
 
-def names_closure(scope: Scope, expr: ast.AST, stop=()) -> Set[str]:
-    """Names an expression depends on, following local single definitions (not through names in stop)."""
+def names_closure(scope: Scope, expr: ast.AST, stop=(), ignore_ctx=()) -> Set[str]:
+    """Names an expression depends on (data and control dependence inside one function): through local
+    definitions, tuple unpacking, loop targets (their iterables), values pushed into it by mutator calls /
+    element stores, and the loops and tests that enclose those writes.  Names in `stop` are not expanded."""
     out: Set[str] = set()
     work = [expr]
     seen = set()
+    par = scope.parents
+
+    ign = {id(x) for x in ignore_ctx}
+
+    def control(st):
+        for a in par.ancestors(st):
+            if id(a) in ign:
+                continue  # context shared with the statement under study: not part of how the value is computed
+            if isinstance(a, (ast.For, ast.While)):
+                work.append(a.iter if isinstance(a, ast.For) else a.test)
+            elif isinstance(a, ast.If):
+                work.append(a.test)
+            elif isinstance(a, (ast.FunctionDef, ast.AsyncFunctionDef)):
+                break
+
     while work:
         e = work.pop()
         for n in ast.walk(e):
@@ -356,7 +373,20 @@ def names_closure(scope: Scope, expr: ast.AST, stop=()) -> Set[str]:
                     continue
                 for st in scope.assigns.get(n.id, []):
                     work.append(st.value)
+                    control(st)
                 for st in scope.other_binds.get(n.id, []):
                     if isinstance(st, (ast.Assign, ast.AnnAssign)) and st.value is not None:
                         work.append(st.value)  # tuple-unpacking assignment
+                    elif isinstance(st, ast.AugAssign):
+                        work.append(st.value)
+                        control(st)
+                    elif isinstance(st, (ast.For, ast.comprehension)):
+                        work.append(st.iter)
+                for st in scope.mutated.get(n.id, []):
+                    if isinstance(st, ast.Call):
+                        work.extend(st.args)
+                        control(st)
+                    elif isinstance(st, (ast.Assign, ast.AugAssign)):
+                        work.append(st.value)
+                        control(st)
     return out
